@@ -23,6 +23,7 @@ for ID in $ids; do
   if [ ${#pids[@]} -ge 4 ]; then wait ${pids[0]} || fail=1; pids=("${pids[@]:1}"); fi
 done
 for p in "${pids[@]:-}"; do [ -n "$p" ] && { wait $p || fail=1; }; done
-[ -x setup_extra.sh ] && { ./setup_extra.sh || fail=1; }
+# engine E9 is optional: without it C01 records mapseed-skipped and still runs every other configuration
+[ -x setup_extra.sh ] && { ./setup_extra.sh || echo "setup: setup_extra.sh failed - C01 will skip its map-seed replays"; }
 echo "setup done fail=$fail"
 exit $fail
